@@ -1,6 +1,7 @@
 SPECIFICATION Spec
 CONSTANTS
   ElemIgnore = TRUE
+  Shape <- NoShape
   MinVisSet <- PubOnly
   File2Srcs <- None
   ClassHeads <- NestHeads
@@ -15,6 +16,7 @@ CONSTANTS
   MaxTops = 1
   AliasAlpha <- None
   MaxAliases = 0
+  NestedLike = FALSE
   CmdKinds <- None
 INVARIANT OneOwner
 INVARIANT RefsBackward
